@@ -40,6 +40,13 @@ class Mon(Monitor):
         out = []
         ev = w.hist[-1]
         prev, self.prev = getattr(self, 'prev', None), None
+        for r in w.calls:
+            if r.kind == 'disconnect' and r.call_step == w.step and r.call_phase == 'connected' and r.ret == 'raise' and \
+                    r.exc != 'MQTTStateError':
+                c = w.conns[r.conn]
+                if c.close_req is None or c.close_step == w.step:
+                    out.append(V('allow', 'allowed-op-raised/disconnect/%s' % r.exc,
+                                 'disconnect() while connected raised %s' % r.exc))
         if ev[0] != 'probe' or prev is None:
             return out
         canon0, ph, pend0 = prev
@@ -164,6 +171,8 @@ def scenarios(ctx):
                            inpubs=((2, False, False, 9, 'short'),),
                            budgets=dict(connect=2, connack=1, badconnack=1, pub=1, sub=1, unsub=1 if not q else 0, ack=1,
                                         lose=1, rebuild=1, disconnect=1, tick=1 if q else 2, inpub=1)))
+    out.append(Std('reenter-ack-disconnect', profile='pub', mode='async', init=(('connect', 0, True, 0, 4), ('connack', 0, 0, False)),
+                   reenter=('ok:pub>disconnect',), pub_qos=(1, 2), closing=False, budgets=dict(pub=2, ack=3, tick=1)))
     return out
 
 
